@@ -22,14 +22,32 @@ func thash(parts ...[]byte) uint64 {
 	}
 	return h
 }
-func tagBytes(acc uint64, k int) []byte {
-	o := make([]byte, 0, k)
-	for i := 0; i < k; i++ {
-		o = append(o, byte(vh.Mix(acc, uint64(i))%256))
+func thash2(parts ...[]byte) uint64 {
+	h := uint64(11)
+	for _, p := range parts {
+		for _, b := range p {
+			h = (h*257 + uint64(b) + 3) % 998244353
+		}
 	}
-	return o
+	return h
 }
-func toyMac(ms int, x []byte) []byte { return tagBytes(thash(x), ms) }
+
+// tagBytes: both accumulators in full, then filler (C25.tag_bytes)
+func tagBytes(x []byte, k int) []byte {
+	a1, a2 := thash(x), thash2(x)
+	o := []byte{byte(a1 >> 24), byte(a1 >> 16), byte(a1 >> 8), byte(a1), byte(a2 >> 24), byte(a2 >> 16), byte(a2 >> 8), byte(a2)}
+	for i := 0; i < k; i++ {
+		o = append(o, byte(vh.Mix(vh.Mix(a1, uint64(i)), a2)%256))
+	}
+	if k < 0 {
+		k = 0
+	}
+	return o[:k]
+}
+
+// lp is the length-prefixed encoding of a field (C25.lp)
+func lp(b []byte) []byte { return append([]byte{byte(len(b) >> 8), byte(len(b))}, b...) }
+func toyMac(ms int, x []byte) []byte { return tagBytes(x, ms) }
 func xorKS(pos int, x []byte) []byte {
 	o := make([]byte, len(x))
 	for i, b := range x {
@@ -38,7 +56,7 @@ func xorKS(pos int, x []byte) []byte {
 	return o
 }
 func toyTag(ovh int, nonce, ad, p []byte) []byte {
-	return tagBytes(thash(nonce, []byte{255}, ad, []byte{254}, p), ovh)
+	return tagBytes(append(append(lp(nonce), lp(ad)...), p...), ovh)
 }
 func toySeal(ovh int, nonce, ad, p []byte) []byte {
 	return append(xorKS(int(thash(nonce)%256), p), toyTag(ovh, nonce, ad, p)...)
